@@ -369,6 +369,59 @@ def shard_order(arg) -> E.Tally:
     return t
 
 
+_PRISTINE = r"""
+import json, sys
+sys.path.insert(0, {verif!r})
+from checks import c05_payloads as C
+from mc import logcap
+logcap.silence_all()
+reps = json.load(open(sys.argv[1]))
+flood = [f" I --- 04:{{100000 + k:06d}} --:------ 01:{{200000 + k:06d}} 30C9 003 0007D0" for k in range(700)]
+first = [C._frozen(C.decode(fr)[:2]) for fr in reps]
+for f in flood:
+    C.decode(f)
+again = [C._frozen(C.decode(fr)[:2]) for fr in reps]
+json.dump([first, again], sys.stdout)
+"""
+
+
+def shard_pristine(arg) -> E.Tally:
+    """A process of its own, in the state the library is in when it has just been imported (no cache is ever cleared, nothing reset):
+    every representative packet is decoded, then the packets of 700 other devices, then every representative again. The in-worker runs
+    above clear the caches before each case, which also clears whatever the library put into them while it was being imported."""
+    import os
+    import subprocess
+    import sys
+    import tempfile
+
+    limit = arg
+    t = E.Tally()
+    reps = representatives(limit) + [" I --- 04:189076 63:262142 --:------ 1FC9 006 0030C912E294", " I --- 29:158183 63:262142 --:------ 1FC9 012 0022F17669E7001FC97669E7"]
+    fd, path = tempfile.mkstemp(prefix="verif_c05_", suffix=".json")
+    try:
+        with os.fdopen(fd, "w") as f:
+            json.dump(reps, f)
+        here = os.path.dirname(os.path.dirname(os.path.abspath(__file__)))
+        r = subprocess.run([sys.executable, "-c", _PRISTINE.format(verif=here), path], capture_output=True, text=True, timeout=600, env=dict(os.environ))
+    finally:
+        os.unlink(path)
+    if r.returncode != 0:
+        raise RuntimeError(f"pristine decode process failed: {r.stderr[-400:]}")
+    first, again = json.loads(r.stdout)
+    logcap.silence_all()
+    for fr, a, b in zip(reps, first, again):
+        t.n += 1
+        t.nontrivial += 1
+        fresh()
+        alone = json.loads(json.dumps(_frozen(decode(fr)[:2])))
+        if a != b:
+            t.bad(f"C05:depends-on-earlier-packet:{fr.split()[-3]}:long-session", f"decode({fr!r}) in a freshly started process = {a!r}; again after 700 packets of other devices = {b!r}"[:400], {"pristine": limit})
+        elif a != alone:
+            t.bad(f"C05:depends-on-earlier-packet:{fr.split()[-3]}:caches-cleared", f"decode({fr!r}) in a freshly started process = {a!r}; with every cache cleared first = {alone!r}"[:400], {"pristine": limit})
+    t.by["pristine_process_decodes"] = 2 * len(reps)
+    return t
+
+
 def shard_order_same_code(arg) -> E.Tally:
     """Within one verb/code: every ordered pair over (address shape x payload) - a decoder that memoises on part of the frame
     (a payload byte, a sequence number, the source) would hand the second packet what it worked out for the first."""
@@ -433,6 +486,7 @@ def run(ctx) -> None:
     jobs = [("shard_words", (i, 48, q)) for i in range(48)]
     jobs += [("shard_arrays", (i, 16, q)) for i in range(16)]
     jobs += [("shard_order", (i, 16, 300 if q else 1500, not q)) for i in range(16)]
+    jobs += [("shard_pristine", 300 if q else 1500)]
     jobs += [("shard_order_same_code", (i, 16, q)) for i in range(16)]
     total = E.pmap(_dispatch, jobs, ctx.seed)
     E.report(
@@ -451,7 +505,9 @@ def run(ctx) -> None:
 def replay(rep: dict):
     logcap.silence_all()
     t = E.Tally()
-    if "a" in rep:
+    if "pristine" in rep:
+        t.merge(shard_pristine(rep["pristine"]))
+    elif "a" in rep:
         fresh()
         alone = _frozen(decode(rep["b"])[:2])
         fresh()
